@@ -48,6 +48,10 @@ chk("C18", "exploration",
     "Exhaustive management check (every assignment of <=6 caches to live / released in round 1 / released in round 2, ReleaseBuckets after each round, accounting equality and a Rotate+Cleanup bound check) plus concurrent model-based runs under the race detector: 2-8 callers and one maintenance goroutine over caches sharing a cleaner, seeded delays at hooks between the critical sections of Get/save/recover/Cleanup/ReleaseBuckets, loaders that yield, fail and panic, caches released and created while running; monitors check coherence of every returned value, error/panic delivery, accounted size = sum of live entries and the size bound at quiescent barriers, and that live caches stay managed.",
     "Usage protocol respected (no lookup on a released cache, maintenance calls from one goroutine). Hooks are compiled in with the verif tag.", "online invariant monitors at hooks + quiescent-point structural checks + Go race detector", "DESIGN.md 2/C18")
 
+chk("C11", "exploration",
+    "End-to-end findability monitor: documents with hostile field values (multi-byte case pairs whose lower-case form changes length, combining marks, non-ASCII digits/numbers, separators, wildcard characters, quotes, backslashes, invalid bytes, values at limit-1/limit/limit+1) are ingested through the real bulk.Ingestor (tokenizers, indexer, mapping incl. object, tags, multi-type and size-limited fields) into a real store; for every mapped field, queries are built from the field's own content by the statement's rule (whole value / each word / each leading path / existence) in every SeqQL quoting style and the legacy syntax and executed by the real parsers and search path; each must return the document. Over-limit values must be skipped or findable by their valid prefix, and every indexed token must be a (lower-cased) value, word, path cut or prefix of one.",
+    "Case sensitivity and partial indexing are fixed per worker (process-global settings); nested fields not generated.", "runtime findability oracle (index side vs query side executed end-to-end)", "DESIGN.md 2/C11")
+
 def main():
     claimed = sorted(CHECKS)
     na = [{"property_id": p, "reason": "check not built yet in this session (planned; see DESIGN.md section 2)"} for p in ALL if p not in CHECKS]
